@@ -127,6 +127,34 @@ func genValidVector(r *rng, k int) (string, vecShape) {
 	return ver + "/" + strings.Join(toks, "/"), sh
 }
 
+// lookupArgs: arguments for the Get* functions: every code of every metric plus
+// near misses (suffix, prefix, case, blank).
+var lookupArgs = func() []string {
+	seen := map[string]bool{}
+	var out []string
+	add := func(s string) {
+		if !seen[s] {
+			seen[s] = true
+			out = append(out, s)
+		}
+	}
+	for _, defs := range [][]metricDef{v3BaseDefs, v3TempDefs, v3EnvDefs, v2BaseDefs, v2TempDefs, v2EnvDefs} {
+		for _, d := range defs {
+			for _, v := range d.vals {
+				add(v)
+				add(v + "x")
+				add(v + v)
+				add(" " + v)
+				add(strings.ToLower(v))
+			}
+		}
+	}
+	for _, s := range []string{"", "3.0", "3.1", "3.2", "CVSS:3.0", "CVSS:3.1", "CVSS:3.1x", "CVSS:", "Z", "\x00"} {
+		add(s)
+	}
+	return out
+}()
+
 var rawInputs = []string{
 	"", ":", "/", "::", "//", ":/", "/:", "CVSS", "CVSS:", "CVSS:3.1", "CVSS:3.1/", "CVSS:3.1//", "CVSS:3.0/:", "CVSS:3.1/:",
 	"CVSS:3.1/AV", "CVSS:3.1/AV:", "CVSS:3.1/:N", "AV", "AV:", ":N", "AV:N", "AV:N/", "/AV:N", "CVSS:3.1/AV:N:N",
@@ -170,7 +198,7 @@ func genVector(r *rng, k int, big bool) (vec string, class string, sh vecShape) 
 		}
 		return 1 + r.intn(len(toks)-1)
 	}
-	switch e := r.intn(16); e {
+	switch e := r.intn(19); e {
 	case 0:
 		i := idx()
 		toks = append(toks[:i:i], toks[i+1:]...)
@@ -243,6 +271,42 @@ func genVector(r *rng, k int, big bool) (vec string, class string, sh vecShape) 
 			s[r.intn(len(s))] = pick(r, []byte{0, 0xff, ' ', ':', '/', 'x', 'N'})
 		}
 		return string(s), "replace-byte", vecShape{}
+	case 16, 17, 18:
+		// an optional (temporal / environmental) metric with a value that is no
+		// code: the aborted decode leaves a receiver whose optional field holds its
+		// invalid value
+		var opt []metricDef
+		lvl := kindLevel(k)
+		if lvl == 0 {
+			lvl = 1 + r.intn(2) // fed to a base decoder it is simply an unsupported metric
+		}
+		if kindIsV2(k) {
+			opt = append(opt, v2TempDefs...)
+			if lvl >= 2 {
+				opt = append(opt, v2EnvDefs...)
+			}
+		} else {
+			opt = append(opt, v3TempDefs...)
+			if lvl >= 2 {
+				opt = append(opt, v3EnvDefs...)
+			}
+		}
+		d := pick(r, opt)
+		bad := pick(r, []string{"Z", "x", "0", "XX", "?", "Q", pick(r, d.vals) + "x", "n"})
+		// replace the token if present, else insert it somewhere after the first token
+		placed := false
+		for i, t := range toks {
+			if strings.HasPrefix(t, d.name+":") {
+				toks[i] = d.name + ":" + bad
+				placed = true
+				break
+			}
+		}
+		if !placed {
+			i := 1 + r.intn(len(toks))
+			toks = append(toks[:i:i], append([]string{d.name + ":" + bad}, toks[i:]...)...)
+		}
+		class = "bad-optional-value"
 	case 14:
 		// metric of a higher level appended
 		var extra []metricDef
